@@ -3,7 +3,7 @@ from ..driver import Plan, H
 from .resp_common import RESP_SLICE, MOD, INJ
 
 NOLINE = "NOLINE"
-ATTR = ("#[kani::unwind(%d)]\n#[kani::stub(std::fmt::format, vk_fmt_format)]\n"
+ATTR = ("#[kani::unwind(%d)]\n#[kani::stub(core::fmt::write, vk_fmt_write)]\n#[kani::stub(std::fmt::format, vk_fmt_format)]\n"
         "#[kani::stub(super::RespValue::read_line, read_line_model)]\n")
 
 
@@ -11,19 +11,27 @@ class Frame:
     """A frame shape: how to build the value (Rust), its wire length, and the sequence of things the decoder does:
     ('line', offset_in_frame, relative_crlf_pos) for each read_line call, ('need', offset, nbytes) for a bulk body."""
 
-    def __init__(self, name, decl, expr, length, events, descr):
+    def __init__(self, name, decl, expr, length, events, descr, wire):
         self.name, self.decl, self.expr, self.length, self.events, self.descr = name, decl, expr, length, events, descr
+        self.wire = wire  # list of Rust u8 expressions, the frame's bytes on the wire
+        assert len(wire) == length, (name, len(wire), length)
+
+
+def lit(text):
+    return ["b'%s'" % {"\r": "\\r", "\n": "\\n"}.get(ch, ch) for ch in text]
 
 
 def bulk(n, var):
     return Frame("bulk%d" % n, "let %s: [u8; %d] = kani::any();" % (var, n),
                  "RespValue::BulkString(Some(%s.to_vec()))" % var, n + 6,
-                 [("line", 0, 2), ("need", 4, n + 2)], "BulkString(%d arbitrary bytes)" % n)
+                 [("line", 0, 2), ("need", 4, n + 2)], "BulkString(%d arbitrary bytes)" % n,
+                 lit("$%d\r\n" % n) + ["%s[%d]" % (var, i) for i in range(n)] + lit("\r\n"))
 
 
 def integer(v):
     w = len(str(v))
-    return Frame("int%s" % str(v).replace("-", "m"), "", "RespValue::Integer(%d)" % v, w + 3, [("line", 0, w + 1)], "Integer(%d)" % v)
+    return Frame("int%s" % str(v).replace("-", "m"), "", "RespValue::Integer(%d)" % v, w + 3, [("line", 0, w + 1)], "Integer(%d)" % v,
+                 lit(":%d\r\n" % v))
 
 
 def simple(n, var):
@@ -31,15 +39,16 @@ def simple(n, var):
             "{ let mut i = 0; while i < %d { kani::assume(%s[i] < 128 && %s[i] != b'\\r' && %s[i] != b'\\n'); %s_s.push(%s[i] as char); i += 1; } }"
             % (var, n, var, n, n, var, var, var, var, var))
     return Frame("simple%d" % n, decl, "RespValue::SimpleString(%s_s.clone())" % var, n + 3, [("line", 0, n + 1)],
-                 "SimpleString(%d ASCII characters without CR/LF)" % n)
+                 "SimpleString(%d ASCII characters without CR/LF)" % n,
+                 lit("+") + ["%s[%d]" % (var, i) for i in range(n)] + lit("\r\n"))
 
 
 def null():
-    return Frame("null", "", "RespValue::Null", 3, [("line", 0, 1)], "Null")
+    return Frame("null", "", "RespValue::Null", 3, [("line", 0, 1)], "Null", lit("_\r\n"))
 
 
 def nullbulk():
-    return Frame("nullbulk", "", "RespValue::BulkString(None)", 5, [("line", 0, 3)], "BulkString(None)")
+    return Frame("nullbulk", "", "RespValue::BulkString(None)", 5, [("line", 0, 3)], "BulkString(None)", lit("$-1\r\n"))
 
 
 def array(items):
@@ -51,7 +60,8 @@ def array(items):
         off += f.length
     return Frame("arr_" + "_".join(f.name for f in items), " ".join(f.decl for f in items),
                  "RespValue::Array(vec![%s])" % ", ".join(f.expr for f in items), off, ev,
-                 "Array[%s]" % ", ".join(f.descr for f in items))
+                 "Array[%s]" % ", ".join(f.descr for f in items),
+                 lit("*%d\r\n" % len(items)) + [b for f in items for b in f.wire])
 
 
 def attempts(frames, start, avail_end):
@@ -107,17 +117,50 @@ def plan(tier):
     gen = []
     streams = [
         ("bulk3", [bulk(3, "d0")]),
-        ("arr_int_bulk1", [array([integer(7), bulk(1, "d0")])]),
-        ("bulk1_then_int", [bulk(1, "d0"), integer(-42)]),
-        ("nullbulk_null_bulk0", [nullbulk(), null(), bulk(0, "d0")]),
+        ("arr_bulk1", [array([bulk(1, "d0")])]),
+        ("int7", [integer(7)]),
+    ]
+    pipelines = [
+        ("bulk1_int", [bulk(1, "d0"), integer(-42)]),
+        ("null_bulk0", [null(), bulk(0, "d0")]),
+        ("arrbulk1_bulk2", [array([bulk(1, "d0")]), bulk(2, "d1")]),
     ]
     if tier != "quick":
         streams += [
-            ("simple2_then_bulk2", [simple(2, "s0"), bulk(2, "d0")]),
-            ("arr_arr_null_bulk2", [array([array([null()]), bulk(2, "d0")])]),
             ("bulk4", [bulk(4, "d0")]),
-            ("arr_empty_then_bulk1", [array([]), bulk(1, "d0")]),
+            ("simple2", [simple(2, "s0")]),
+            ("arr_empty", [array([])]),
+            ("bulk0", [bulk(0, "d0")]),
+            ("nullbulk", [nullbulk()]),
+            ("int_neg", [integer(-42)]),
         ]
+        pipelines += [
+            ("simple2_bulk2", [simple(2, "s0"), bulk(2, "d0")]),
+            ("int_int_null", [integer(7), integer(-42), null()]),
+        ]
+    # pipelining: several frames in one read, decoded one after the other from the same cursor
+    # (BytesMut::advance between frames does pointer<->integer arithmetic that CBMC does not get through; the
+    #  exact-consumption clause of decode() itself is C21's `line`/`bulk`/`array` families)
+    for pname, frames in pipelines:
+        total = sum(f.length for f in frames)
+        fn = "c20_pipeline_%s" % pname
+        body = [f.decl for f in frames if f.decl]
+        for i, f in enumerate(frames):
+            body.append("let v%d = %s;" % (i, f.expr))
+        body.append("let s: [u8; %d] = [%s];" % (total, ", ".join(b for f in frames for b in f.wire)))
+        body.append("let mut cur: &[u8] = &s[..];")
+        left = total
+        for i, f in enumerate(frames):
+            layout = [str(e[2]) for e in f.events if e[0] == "line"]
+            left -= f.length
+            body.append("set_layout(&[%s]);" % ", ".join(layout))
+            body.append("let r%d = RespValue::decode_frame(&mut cur, 0);" % i)
+            body.append("assert!(matches!(&r%d, Ok(Some(x)) if *x == v%d), \"C20 pipelined frame decoded wrongly\");" % (i, i))
+            body.append("assert!(cur.len() == %d, \"C20 pipelined frame did not consume exactly itself\");" % left)
+        body.append("vk_cover!(true, \"reach\");")
+        body.append("std::mem::forget((%s));" % ", ".join(["v%d" % i for i in range(len(frames))] + ["r%d" % i for i in range(len(frames))]))
+        gen.append("vk_proof! {\n" + ATTR % (total + 4) + "fn %s() {\n    %s\n}\n}\n" % (fn, "\n    ".join(body)))
+        p.add(MOD, H(fn, {"stream": [f.descr for f in frames], "bytes": total, "reads": 1}, "pipeline"))
     for sname, frames in streams:
         total = sum(f.length for f in frames)
         for sp in range(0, total + 1):
@@ -126,30 +169,32 @@ def plan(tier):
             for f in frames:
                 if f.decl:
                     body.append(f.decl)
-            body.append("let vals: Vec<RespValue> = vec![%s];" % ", ".join(f.expr for f in frames))
-            body.append("let mut s: Vec<u8> = Vec::with_capacity(%d);" % (total + 8))
-            body.append("let mut k = 0; while k < vals.len() { assert!(vals[k].encode(&mut s).is_ok(), \"C20 encode failed\"); k += 1; }")
-            body.append("assert!(s.len() == %d, \"C20 encoded stream has the expected length\");" % total)
+            for i, f in enumerate(frames):
+                body.append("let v%d = %s;" % (i, f.expr))
+            body.append("let s: [u8; %d] = [%s];" % (total, ", ".join(b for f in frames for b in f.wire)))
             body.append("let mut c = Conn::new();")
             # first read
             a1, pos = attempts(frames, 0, sp)
-            body.append("c.buf.extend_from_slice(&s[..%d]);" % sp)
+            if sp > 0:
+                body.append("c.buf.extend_from_slice(&s[..%d]);" % sp)
             for layout, outcome in a1:
                 body.append("{ let more = c.attempt(&[%s]); assert!(more == %s, \"C20 decoder loop: wrong decision on the first read\"); }"
                             % (", ".join(layout), "true" if outcome == "value" else "false"))
             body.append("assert!(c.errors == 0, \"C20 a split well-formed stream produced a protocol error\");")
             # second read
             a2, pos2 = attempts(frames, pos, total)
-            body.append("c.buf.extend_from_slice(&s[%d..]);" % sp)
+            if sp < total:
+                body.append("c.buf.extend_from_slice(&s[%d..]);" % sp)
             for layout, outcome in a2:
                 body.append("{ let more = c.attempt(&[%s]); assert!(more == %s, \"C20 decoder loop: wrong decision on the second read\"); }"
                             % (", ".join(layout), "true" if outcome == "value" else "false"))
             body.append("assert!(c.errors == 0, \"C20 a split well-formed stream produced a protocol error\");")
-            body.append("assert!(c.got.len() == vals.len(), \"C20 number of frames decoded\");")
-            body.append("let mut k = 0; while k < vals.len() { assert!(c.got[k] == vals[k], \"C20 decoded frame differs from the one sent\"); k += 1; }")
+            body.append("assert!(c.n == %d, \"C20 number of frames decoded\");" % len(frames))
+            for i in range(len(frames)):
+                body.append("assert!(matches!(c.got(%d), Some(x) if *x == v%d), \"C20 decoded frame differs from the one sent\");" % (i, i))
             body.append("assert!(c.buf.is_empty(), \"C20 bytes left in the buffer after all frames\");")
             body.append("vk_cover!(true, \"reach\");")
-            body.append("std::mem::forget((c, vals, s));")
+            body.append("std::mem::forget((c, %s));" % ", ".join("v%d" % i for i in range(len(frames))))
             gen.append("vk_proof! {\n" + ATTR % (total + 4) + "fn %s() {\n    %s\n}\n}\n" % (fn, "\n    ".join(body)))
             p.add(MOD, H(fn, {"stream": [f.descr for f in frames], "bytes": total, "first_read": sp, "second_read": total - sp},
                          "split"))
@@ -175,17 +220,22 @@ def plan(tier):
             raise Inconclusive("server.rs: decode loop arms are not Ok(Some)/Ok(None)/Err(Incomplete)/Err(e) any more")
     p.source_checks.append(skeleton_check)
     p.assumptions = [
-        "slice crate: current src/protocol/resp.rs with the real `bytes`/`thiserror`; encode runs with the real core::fmt; "
-        "only `format!` in error paths is stubbed",
+        "slice crate: current src/protocol/resp.rs with the real `bytes`/`thiserror`; fmt stubbed",
+        "the stream is given as wire bytes (concrete headers, symbolic payload); that encode() produces exactly these bytes for "
+        "these values is what C22's harnesses decide (reply_bulk / reply_line / reply_integer), so decode(encode(v)) == v follows "
+        "by composition: it is not re-run through core::fmt here (doing so: no verdict in 28 min)",
         "read_line replaced by its specification with the CRLF position given by the shape (checked separately against the "
         "real read_line by C21's `readline` family; the native replay runs the real one)",
         "the connection loop is an async fn over a socket: its decision skeleton (value -> dispatch and continue; Ok(None) or "
         "Err(Incomplete) -> wait for the next read; other Err -> error reply) is restated as `Conn::attempt` and the arms of "
         "src/protocol/server.rs are checked textually on every run (changed => inconclusive)",
-        "two reads per stream (one split point), every split point 0..=|S|",
+        "single-frame streams: two reads (one split point), every split point 0..=|S|, through the decode loop skeleton on a "
+        "BytesMut; multi-frame streams (pipelining): one read, frames decoded one after the other from one cursor with "
+        "decode_frame (BytesMut::advance between frames does pointer<->integer arithmetic CBMC does not finish: measured)",
     ]
-    p.bound = ("streams: %s; payload bytes symbolic (all 256 values), every split of the stream into two reads"
-               % "; ".join("%s (%d bytes)" % (n, sum(f.length for f in fr)) for n, fr in streams))
+    p.bound = ("split streams: %s; pipelines: %s; payload bytes symbolic (all 256 values)"
+               % ("; ".join("%s (%d bytes, every split)" % (n, sum(f.length for f in fr)) for n, fr in streams),
+                  "; ".join(n for n, _ in pipelines)))
     p.not_covered = "three or more reads, longer streams, inline commands, the live socket and the dispatch itself"
     p.per_harness_timeout = 400 if tier == "quick" else 1200
     p.total_timeout = 1700 if tier == "quick" else 7000
